@@ -50,7 +50,13 @@ type Res = Result<(), String>;
 
 fn ename<E: Debug>(e: E) -> String {
     let s = format!("{e:?}");
-    s.split(|c: char| !c.is_alphanumeric()).next().unwrap_or("").to_string()
+    let mut ids = s.split(|c: char| !c.is_alphanumeric()).filter(|x| !x.is_empty());
+    let first = ids.next().unwrap_or("").to_string();
+    // Plexer(Decoding(..)) / ChannelError(Decoding(..)): the payload could not be decoded
+    if (first == "Plexer" || first == "ChannelError") && ids.next() == Some("Decoding") {
+        return "Decoding".to_string();
+    }
+    first
 }
 fn r<T, E: Debug>(x: Result<T, E>) -> Res {
     x.map(|_| ()).map_err(ename)
@@ -60,6 +66,8 @@ fn classify(res: &Res) -> &'static str {
         Ok(()) => "ok",
         Err(e) => match e.as_str() {
             "AgencyIsOurs" | "AgencyIsTheirs" | "InvalidInbound" | "InvalidOutbound" | "AlreadyInitialized" => "reject",
+            // the message kind is fine, its payload is not (mismatching cookie, undecodable body)
+            "KeepAliveCookieMismatch" | "Decoding" => "refuse",
             "Plexer" | "ChannelError" => "plexer",
             "Timeout" => "timeout",
             _ => "app",
@@ -107,6 +115,15 @@ fn enc<M: minicbor::Encode<()>>(m: &M) -> Vec<u8> {
     minicbor::to_vec(m).unwrap_or_else(|e| die(&format!("encode: {e}")))
 }
 
+/// `[label, "x"]` for a message `[label, payload..]` (None for payload-less messages)
+fn malformed(good: &[u8]) -> Option<Vec<u8>> {
+    if good.len() >= 3 && (0x82..=0x97).contains(&good[0]) && good[1] < 24 {
+        Some(vec![0x82, good[1], 0x61, 0x78])
+    } else {
+        None
+    }
+}
+
 fn dbg_state<T: Debug>(s: &T) -> String {
     ename(s)
 }
@@ -130,6 +147,18 @@ pub trait Proto: Sized {
         Ok(())
     }
     async fn call(&mut self, role: Role, via: &str, sel: &[String]) -> Res;
+    /// messages of the right kind whose payload the receiver cannot accept:
+    /// (what is wrong, wire bytes). Default: same label, payload replaced by a
+    /// text item the payload decoder cannot take ("malformed"); protocols add
+    /// well-formed but semantically wrong payloads.
+    fn bad_wires(&self, msg: &str) -> Vec<(&'static str, Vec<u8>)> {
+        malformed(&self.wire(msg)).map(|b| vec![("malformed", b)]).unwrap_or_default()
+    }
+    async fn deliver_raw(&mut self, to: Role, b: Vec<u8>) {
+        if self.raw(to).enqueue_chunk(b).await.is_err() {
+            die("raw enqueue failed");
+        }
+    }
     async fn deliver(&mut self, to: Role, msg: &str) {
         let b = self.wire(msg);
         if self.raw(to).enqueue_chunk(b).await.is_err() {
@@ -685,6 +714,16 @@ impl Proto for Ka {
     fn wire(&self, msg: &str) -> Vec<u8> {
         enc(&self.msg(msg))
     }
+    fn bad_wires(&self, msg: &str) -> Vec<(&'static str, Vec<u8>)> {
+        let mut v: Vec<(&'static str, Vec<u8>)> =
+            malformed(&self.wire(msg)).map(|b| vec![("malformed", b)]).unwrap_or_default();
+        if msg == "ResponseKeepAlive" {
+            if let keepalive::Message::ResponseKeepAlive(c) = self.msg(msg) {
+                v.push(("cookie", enc(&keepalive::Message::ResponseKeepAlive(c ^ 0x5555))));
+            }
+        }
+        v
+    }
     async fn drive(&mut self, msg: &str) -> Res {
         match msg {
             "KeepAlive" => {
@@ -1210,7 +1249,15 @@ fn combos(steps: &[S]) -> Vec<Vec<String>> {
     out
 }
 
-async fn probe<P: Proto>(out: &mut Ndjson, v: &Via, path: &[String], want_state: &str, sel: &[String]) {
+/// `bad` = Some((k, n)): the k-th step (a recv) is delivered with the n-th bad payload of its class
+async fn probe<P: Proto>(
+    out: &mut Ndjson,
+    v: &Via,
+    path: &[String],
+    want_state: &str,
+    sel: &[String],
+    bad: Option<(usize, usize)>,
+) {
     let (chans, pa, pb) = link(P::ID).await;
     let mut p = P::new(chans);
     let reached = tokio::time::timeout(Duration::from_secs(10), p.reach(path)).await;
@@ -1233,9 +1280,17 @@ async fn probe<P: Proto>(out: &mut Ndjson, v: &Via, path: &[String], want_state:
         out.ev(json!({"ev": "reach", "proto": P::NAME, "role": v.role.name(), "path": path, "want": want_state,
                       "state": state, "err": why}));
     } else {
-        for (s, c) in v.steps.iter().zip(sel.iter()) {
+        let mut badkind = "";
+        for (i, (s, c)) in v.steps.iter().zip(sel.iter()).enumerate() {
             if matches!(s, S::Recv(_)) {
-                p.deliver(v.role, c).await;
+                match bad {
+                    Some((k, n)) if k == i => {
+                        let (kind, bytes) = p.bad_wires(c).swap_remove(n);
+                        badkind = kind;
+                        p.deliver_raw(v.role, bytes).await;
+                    }
+                    _ => p.deliver(v.role, c).await,
+                }
             }
         }
         let res = match tokio::time::timeout(Duration::from_secs(10), p.call(v.role, v.name, sel)).await {
@@ -1243,9 +1298,25 @@ async fn probe<P: Proto>(out: &mut Ndjson, v: &Via, path: &[String], want_state:
             Err(_) => Err("Timeout".to_string()),
         };
         let after = p.state(v.role);
+        let failed = classify(&res) == "refuse";
         out.ev(json!({"ev": "call", "proto": P::NAME, "role": v.role.name(), "path": path, "state": state, "peer": peer,
                       "via": v.name, "commit": v.commit, "cond": v.cond, "steps": steps, "res": classify(&res),
-                      "err": res.err().unwrap_or_default(), "after": after}));
+                      "err": res.err().unwrap_or_default(), "after": after,
+                      "bad": bad.map(|(k, _)| k + 1).unwrap_or(0), "badkind": badkind}));
+        // after a refused (well-formed) payload a legal exchange must still work: the same
+        // entry point with an acceptable message of the same kind, on the same pair
+        if bad.is_some() && failed && badkind != "malformed" && v.steps.len() == 1 {
+            let state2 = p.state(v.role);
+            p.deliver(v.role, &sel[0]).await;
+            let res = match tokio::time::timeout(Duration::from_secs(10), p.call(v.role, v.name, sel)).await {
+                Ok(x) => x,
+                Err(_) => Err("Timeout".to_string()),
+            };
+            let after = p.state(v.role);
+            out.ev(json!({"ev": "call", "proto": P::NAME, "role": v.role.name(), "path": path, "state": state2, "peer": "",
+                          "via": v.name, "commit": v.commit, "cond": v.cond, "steps": steps, "res": classify(&res),
+                          "err": res.err().unwrap_or_default(), "after": after, "bad": 0, "badkind": "followup"}));
+        }
     }
     drop(p);
     pa.abort().await;
@@ -1295,7 +1366,24 @@ async fn run_proto<P: Proto>(plan: &[Value], out: &mut Ndjson, reps: usize) {
             let path = &states[&(role.clone(), state.clone())];
             for v in vias.iter().filter(|v| v.role.name() == role) {
                 for sel in combos(&v.steps) {
-                    probe::<P>(out, v, path, state, &sel).await;
+                    probe::<P>(out, v, path, state, &sel, None).await;
+                    // the same exchange with each unacceptable payload for each inbound step
+                    for (k, st) in v.steps.iter().enumerate() {
+                        if matches!(st, S::Recv(_)) {
+                            let n = {
+                                let (chans, pa, pb) = link(P::ID).await;
+                                let p = P::new(chans);
+                                let n = p.bad_wires(&sel[k]).len();
+                                drop(p);
+                                pa.abort().await;
+                                pb.abort().await;
+                                n
+                            };
+                            for i in 0..n {
+                                probe::<P>(out, v, path, state, &sel, Some((k, i))).await;
+                            }
+                        }
+                    }
                 }
             }
         }
